@@ -1136,7 +1136,7 @@ func main() {
 		cold := coldStart()
 		w := buildWorkload(nil)
 		defer fmt.Printf("race child: cold start failures: %d\n", len(cold))
-		n := o.Count(24, 800)
+		n := o.Count(24, 400)
 		bad := 0
 		for i := 0; i < n; i++ {
 			_, fails, _, _, _ := runMix(r, w, o.Tier)
@@ -1207,7 +1207,7 @@ func main() {
 		sum.Write(o)
 		return
 	}
-	total := o.Count(100, 4000)
+	total := o.Count(100, 2000)
 	// prologue, single goroutine, fully deterministic: transforms in flight taking turns
 	for _, f := range handoff(w, buildWorkload(nil)) {
 		sum.Fail(f[0], map[string]interface{}{"kind": "handoff", "what": f[0]}, f[1])
@@ -1290,7 +1290,7 @@ func main() {
 	}
 	reset()
 	vh.Done(o)
-	buildAndRunRace(o, sum, o.Count(24, 800))
+	buildAndRunRace(o, sum, o.Count(24, 400))
 	cw.Flush()
 	sum.CaseFiles = cw.Files
 	sum.Write(o)
